@@ -750,6 +750,50 @@ func c06Precedence(c *Ctx) {
 			}
 		}
 	}
+	if !guarded && idx != nil {
+		// the other idiom: the index of the first wildcard comes from a library search over the sorted list
+		if ic, ok := idx.(*ssa.Call); ok {
+			k := core.CalleeKey(ic.Common())
+			if i := strings.IndexByte(k, '['); i > 0 {
+				k = k[:i]
+			}
+			if k == "slices.IndexFunc" && len(ic.Call.Args) == 2 && isSorted(ic.Call.Args[0]) {
+				if cl, _ := core.FnValue(ic.Call.Args[1]); cl != nil && len(cl.Params) == 1 {
+					predOK := false
+					for _, cb := range cl.Blocks {
+						if ret, isRet := core.AsReturn(cb.Instrs[len(cb.Instrs)-1]); isRet && len(ret.Results) == 1 {
+							if wc, isCall := core.Res(ret, 0).(*ssa.Call); isCall && core.CalleeKey(wc.Common()) == "filtering.isWildcard" {
+								if fr2, base, ok := core.LoadedField(wc.Call.Args[0]); ok && fr2.Field == "Domain" && base == ssa.Value(cl.Params[0]) {
+									predOK = true
+								}
+							}
+						}
+					}
+					// the cut happens only when a wildcard was found
+					foundEdge, nf := core.CondEdges(fr, func(at core.Atom) (bool, bool) {
+						if at.Base != ssa.Value(ic) {
+							return false, false
+						}
+						kc, isC := core.ConstInt(at.Other)
+						if !isC {
+							return false, false
+						}
+						switch {
+						case at.Op == token.GEQ && kc == 0, at.Op == token.GTR && kc == -1, at.Op == token.NEQ && kc == -1:
+							return true, true
+						case at.Op == token.LSS && kc == 0, at.Op == token.LEQ && kc == -1, at.Op == token.EQL && kc == -1:
+							return true, false
+						}
+						return false, false
+					})
+					off, _ := core.UnguardedSinks(fr, func(in ssa.Instruction) bool { return in == ssa.Instruction(cut) }, foundEdge)
+					if predOK && nf > 0 && len(off) == 0 {
+						guarded = true
+					}
+				}
+			}
+		}
+	}
 	if !guarded {
 		fail("the cut is not taken exactly when the entry at the cut index is a wildcard")
 	}
